@@ -6,6 +6,7 @@ import (
 	"os"
 	"runtime/debug"
 	"sort"
+	"strconv"
 	"strings"
 	"syscall"
 	"time"
@@ -200,6 +201,19 @@ func runC07(c *core.Ctx) {
 		}
 		log.SetLogLevelQuiet(prev)
 		bounds = append(bounds, fmt.Sprintf("at debug log level: %d unary forms x every value, every infix operator x all pairs of 6 values", len(unary)))
+	}
+	// 1c. programs evaluated by the interpreter states made on the side (unjson, eval): calls, loops, definitions, macros, errors
+	if ok {
+		inner := []string{"(() => 1)()", "(x => x + 1)(2)", "func f() { 1 }; f()", "f = func(n) { if n == 0 { 0 } else { self(n - 1) } }; f(5)", "for i = 3 { i }", "m = macro(x) { quote(unquote(x)) }; m(1)",
+			"[1, 2][5]", "1 / 0", "x = 1; del(x); x", "info", "self", "println(1)", "(x => x)((y => y)(3))", "{\"a\": [1, {\"b\": () => 2}]}.a[1].b()", "catch(1 / 0)", "error(\"e\")", "len(", "quote(1 + 2)", "PI", "abs(-1)", "eval(\"1 + 1\")", "unjson(\"[1]\")"}
+		for _, in := range inner {
+			for _, f := range []string{"unjson(%s)", "eval(%s)", "unjson(%s); unjson(%s)", "f9 = unjson(%s); catch(f9()); catch(f9(1))", "[unjson(%s)] == [eval(%s)]", "func() { unjson(%s) }()", "for 2 { eval(%s) }"} {
+				if ok = do("substate", prelude, strings.ReplaceAll(f, "%s", strconv.Quote(in))); !ok {
+					break
+				}
+			}
+		}
+		bounds = append(bounds, fmt.Sprintf("%d programs x 7 ways of evaluating them in an interpreter state made on the side (unjson, eval)", len(inner)))
 	}
 	// 2. binary and ternary forms x every value in every position
 	if ok {
